@@ -118,3 +118,20 @@ Example C13_inflight_witness :
   nth 5 outs [] = souts [NoSave; Callback BeforeStreamStop; CloseReq 0; Callback AfterStreamStop; Stop] ++ [DcpClose; CliClose; Returned] /\
   s_store (l_s l) 0 = Some (MkD 77 1 1 5) /\ s_inflight (l_s l) = None.
 Proof. vm_compute. repeat split; reflexivity. Qed.
+
+(* ... and a late acknowledgement (a consumer finishing its work after Close()) moves and reports nothing: the
+   teardown leaves the observer map cleared, and while it is cleared set_offset does nothing (C04_closed_window_frozen,
+   repaired defect K8), so a stale schedule tick or a late Commit() finds nothing to write either. *)
+Theorem C13_late_ack_frozen : forall c auto st0 h r1 r2 i,
+  let l := reached c auto st0 h in
+  s_failed (l_s l) = false -> s_obs_nil (l_s l) = false ->
+  let s' := l_s (fst (shutdown l r1 r2)) in
+  snd (step s' (Ack i)) = [] \/ snd (step s' (Ack i)) = [Ignored].
+Proof.
+  intros c auto st0 h r1 r2 i l F N s'.
+  destruct (clean_from_every_streaming_state c auto st0 h r1 r2 F N) as (Q & F' & _).
+  fold l in Q, F'. fold s' in Q, F'. unfold step. rewrite F'.
+  destruct (nth_error (s_ctxs s') i) as [[vb o]|]; [|now right].
+  rewrite (set_offset_closed s' vb o true (q_nil _ Q)). now left.
+Qed.
+Print Assumptions C13_late_ack_frozen.
